@@ -4,6 +4,7 @@ import (
 	"fmt"
 	"image"
 	"image/color"
+	"math"
 
 	webp "github.com/deepteams/webp"
 	"github.com/deepteams/webp/internal/zzverif/choice"
@@ -81,6 +82,33 @@ func alphaPlane(w, h int, pat string, seed int64) []byte {
 				v = 0
 			case "opaque":
 				v = 255
+			case "glow": // curved 2-D falloff that saturates at 255 in the middle and rests at 0 in the corners
+				dx, dy := float64(x)-float64(w)/2, float64(y)-float64(h)/2
+				sg := float64(w+h) / 8
+				g := 340 * math.Exp(-(dx*dx+dy*dy)/(2*sg*sg))
+				if g > 255 {
+					g = 255
+				}
+				if g < 3 {
+					g = 0
+				}
+				v = byte(g)
+			case "saddle": // x*y surface: the gradient predictor leaves 0..255 along its ridge
+				q := x * y / 3
+				if q > 255 {
+					q = 255
+				}
+				v = byte(q)
+			default:
+				// "levels<N>": exactly N alpha levels 255, 254, ... (all present, noise layout)
+				var n int
+				if _, err := fmt.Sscanf(pat, "levels%d", &n); err == nil && n >= 1 && n <= 256 {
+					if i := y*w + x; i < n {
+						v = byte(255 - i)
+					} else {
+						v = byte(255 - rnd()%n)
+					}
+				}
 			}
 			a[y*w+x] = v
 		}
@@ -255,7 +283,7 @@ func cmpPlane(want, got []byte, w int) string {
 
 func init() {
 	registerCases[c07Case]("C07", "exploration",
-		"full product of alpha-pattern class x size x RGB class x AlphaCompression{-1,0,1} x AlphaFiltering{-1,0,1,2} x AlphaQuality{0,1,50,70,71,99,100,-1} x Method 0..6 x Quality{20,90} x Exact (quick: reduced size/Method/Quality menus, still a full product); non-trivial = distinct (pattern,size,options) tuple",
+		"full product of alpha-pattern class x size x RGB class x AlphaCompression{-1,0,1} x AlphaFiltering{-1,0,1,2} x AlphaQuality{0,1,50,70,71,99,100,-1} x Method 0..6 x Quality{20,90} x Exact (quick: reduced size/Method/Quality menus, still a full product), plus every number of distinct alpha levels 1..256 on a 20x20 noise layout x AlphaCompression{-1,1} x AlphaFiltering{-1,0} x Method{0,3,4,6}, plus curved alpha surfaces (glow, saddle) at 33x33 and 64x48 x AlphaCompression{-1,1} x AlphaFiltering{-1,1,2} x Method{0,3,4,6}; non-trivial = distinct (pattern,size,options) tuple",
 		[]string{"worker count pinned to 1, pools never reuse", "reference ALPH decoder written from the container specification on top of the vendored x/image vp8l decoder"},
 		nil,
 		func(e *fw.Env) func(c *choice.Ctx) caseI {
@@ -270,6 +298,34 @@ func init() {
 			aqs := []int{100, 0, 1, 50, 70, 71, 99, -1}
 			return func(c *choice.Ctx) caseI {
 				cs := &c07Case{Seed: e.Seed}
+				part := c.PickFree(3, "part")
+				if part == 2 {
+					// curved alpha surfaces with more than 16 levels: the filter estimator picks the
+					// gradient filter and the prediction leaves 0..255 in places
+					s := [][2]int{{33, 33}, {64, 48}}[c.PickFree(2, "size")]
+					cs.W, cs.H = s[0], s[1]
+					cs.Pattern = []string{"glow", "saddle"}[c.PickFree(2, "pattern")]
+					cs.RGB = "flat"
+					cs.AC = []int{-1, 1}[c.PickFree(2, "ac")]
+					cs.AF = []int{-1, 1, 2}[c.PickFree(3, "af")]
+					cs.AQ = 100
+					cs.M = []int{0, 3, 4, 6}[c.PickFree(4, "method")]
+					cs.Q = 75
+					return cs
+				}
+				if part == 1 {
+					// alphabet-size sweep: every number of distinct alpha levels 1..256 (the number of
+					// used symbols decides the shape of the code-length tables of the compressed plane)
+					cs.W, cs.H = 20, 20
+					cs.Pattern = fmt.Sprintf("levels%d", 1+c.PickFree(256, "levels"))
+					cs.RGB = "flat"
+					cs.AC = []int{-1, 1}[c.PickFree(2, "ac")]
+					cs.AF = []int{-1, 0}[c.PickFree(2, "af")]
+					cs.AQ = 100
+					cs.M = []int{0, 3, 4, 6}[c.PickFree(4, "method")]
+					cs.Q = 75
+					return cs
+				}
 				s := sizes[c.PickFree(len(sizes), "size")]
 				cs.W, cs.H = s[0], s[1]
 				cs.Pattern = c07Patterns[c.PickFree(len(c07Patterns), "pattern")]
